@@ -30,6 +30,7 @@ mod mtud;
 mod streams;
 mod snapshot;
 mod cindex;
+mod cidecho;
 mod wire;
 
 pub use snapshot::{PathSnap, Snapshot, SpaceSnap, StreamsSnap};
@@ -110,6 +111,7 @@ fn registry(name: &str) -> Option<Ctor> {
         "sentpk" => || Box::new(sentpk::SentpkC::new()),
         "cc" => || Box::new(cc::CcC::new()),
         "cindex" => || Box::new(cindex::CindexC::new()),
+        "cidecho" => || Box::new(cidecho::CidEchoC::new()),
         "dgram" => || Box::new(dgram::DgramC::new()),
         "mtud" => || Box::new(mtud::MtudC::new()),
         "streams" => || Box::new(streams::StreamsC::new()),
